@@ -361,10 +361,70 @@ func c04FallbackMany(st *backends.Stack, q []string) []disc {
 	return nil
 }
 
+// c04DefaultPage: a request that names no page size is paged with the size the answer echoes
+// (MaxKeys): on the paginating backend no page holds more entries than that, and following
+// the continuation (again without a page size) visits every entry once, in order.
+func c04DefaultPage(st *backends.Stack, q []string) []disc {
+	v2 := len(q) > 1 && q[0] == "list-type"
+	var got []string
+	pos := ""
+	for page := 1; ; page++ {
+		qq := append([]string(nil), q...)
+		if pos != "" {
+			if v2 {
+				qq = append(qq, "continuation-token", pos)
+			} else {
+				qq = append(qq, "marker", pos)
+			}
+		}
+		doc, r := listDoc(st, "bk0", qq...)
+		if doc == nil {
+			return dsc("page-failed", "backend=%s %d keys, request %v (no max-keys), page %d: %s", st.Kind, c04Many, qq, page, r)
+		}
+		n := len(doc.Contents) + len(doc.CommonPrefixes)
+		if doc.MaxKeys > 0 && int64(n) > doc.MaxKeys {
+			return dsc("page-too-long", "backend=%s %d keys, request %v (no max-keys), page %d: %d entries in an answer that says MaxKeys=%d (IsTruncated=%v)", st.Kind, c04Many, qq, page, n, doc.MaxKeys, doc.IsTruncated)
+		}
+		for _, e := range doc.Contents {
+			got = append(got, e.Key)
+		}
+		if !doc.IsTruncated {
+			break
+		}
+		if n == 0 || page > 20 {
+			return dsc("walk-does-not-end", "backend=%s %d keys, request %v (no max-keys): page %d has %d entries and IsTruncated=true", st.Kind, c04Many, qq, page, n)
+		}
+		switch {
+		case v2:
+			pos = doc.NextContinuationToken
+		case doc.NextMarker != "":
+			pos = doc.NextMarker
+		default:
+			pos = doc.Contents[len(doc.Contents)-1].Key
+		}
+	}
+	if len(got) != c04Many {
+		return dsc("walk-incomplete", "backend=%s %d keys, request %v (no max-keys): the pages hold %d keys", st.Kind, c04Many, q, len(got))
+	}
+	for i, k := range got {
+		if k != fmt.Sprintf("big/k%04d", i) {
+			return dsc("walk-order", "backend=%s %d keys, request %v (no max-keys): entry %d is %q", st.Kind, c04Many, q, i, k)
+		}
+	}
+	return nil
+}
+
+var c04DefaultQueries = [][]string{{"prefix", "big/"}, {"prefix", "big/", "delimiter", "/"}, {}, {"list-type", "2", "prefix", "big/"}, {"list-type", "2"}, {"list-type", "2", "delimiter", "-"}}
+
 func c04Replay(check string, raw json.RawMessage) ([]disc, error) {
 	var cs c04Case
 	if err := json.Unmarshal(raw, &cs); err != nil {
 		return nil, err
+	}
+	if check == "default-page" {
+		st := c04ManyStack(cs.Backend)
+		defer st.Close()
+		return c04DefaultPage(st, strings.Fields(cs.API)), nil
 	}
 	if check == "fallback-many" {
 		st := c04ManyStack(cs.Backend)
@@ -406,7 +466,7 @@ func TestC04(t *testing.T) {
 		Level: "exploration",
 		Rule: "cases = (backend, key set incl. delete-marked keys, prefix, delimiter, max-keys, V1/V2, optional explicit start marker); bounded-exhaustive on the paginating backend (mem): key sets of size <= S over {a,b,/}^<=3 (S=3 quick, 4 thorough, sampled beyond), " +
 			"all prefixes, delimiter none or '/', every max-keys from 1 to entries+1, walks driven by NextMarker/last key (V1) and NextContinuationToken (V2), and every start marker over the alphabet up to length 3 plus beyond-the-end values; " +
-			"fallback path on bolt/fs with the unimplemented-page option on and off; rapid: larger buckets (up to 60 keys) and random page sizes; " +
+			"fallback path on bolt/fs with the unimplemented-page option on and off; 1003 keys at one level: complete on bolt/fs, and on mem paged by the size the answer names when the request names none; rapid: larger buckets (up to 60 keys) and random page sizes; " +
 			"non-trivial = a walk of >= 2 pages that involves a common prefix, a delete-marked key in range, or a start marker not present in the bucket; distinct by the full case",
 		Replay: c04Replay,
 		Run:    c04Run,
@@ -567,6 +627,16 @@ func c04Run(t *testing.T, c *evid.Collector) {
 			}
 			st.Close()
 		}
+	}
+
+	// ---- ... and the paginating backend pages them by the size its answer names when the request names none
+	if evid.Shard() == 0 {
+		st := c04ManyStack(backends.Mem)
+		for _, q := range c04DefaultQueries {
+			cs := c04Case{Backend: backends.Mem, Keys: []string{fmt.Sprintf("(%d keys big/k0000 …)", c04Many)}, Prefix: "big/", API: strings.Join(q, " ")}
+			record("default-page", cs, c04DefaultPage(st, q), 2, c04Many, false, "default-page")
+		}
+		st.Close()
 	}
 
 	// ---- keys up to the 1024-byte limit: markers and tokens derived from them are longer than
